@@ -72,7 +72,7 @@ func init() {
 				for round := 0; round < scale(tier, 2, 8); round++ {
 					s.setEnc(uint(1+r.Intn(2)), uint(1+r.Intn(2)))
 					for _, op := range c12Ops(r) {
-						for _, class := range []string{"valid", "foreign-first", "trailing"} {
+						for _, class := range []string{"valid", "foreign-first", "foreign-proto-first", "trailing"} {
 							var stream []byte
 							build := func(w wireReq) []byte {
 								good := w.frame(w.unit, w.fc, taggedReply(w, 0x0102))
@@ -82,6 +82,11 @@ func init() {
 										return good
 									}
 									return append(mbapFrame(w.txn-1, 0, w.unit, w.fc, taggedReply(w, 9)), good...)
+								case "foreign-proto-first": // a frame of another protocol (id != 0) must be skipped as a whole
+									if w.rtu {
+										return good
+									}
+									return append(mbapFrame(w.txn, 0x0001, w.unit, w.fc, taggedReply(w, 9)), good...)
 								case "trailing":
 									return append(append([]byte(nil), good...), 0xde, 0xad)
 								}
@@ -192,7 +197,7 @@ func init() {
 				}
 				var local [][2]string
 				ops := append(c12Ops(r), &Op{Name: "WriteCoil", Addr: 7, B: true}, &Op{Name: "WriteRegisters", Addr: 9, U16s: []uint16{1, 2, 3}},
-					&Op{Name: "ReadDiscreteInputs", Addr: 3, Qty: 9}, &Op{Name: "ReadRegisters", Addr: 1, Qty: 3, RT: 1})
+					&Op{Name: "ReadDiscreteInputs", Addr: 3, Qty: 9}, &Op{Name: "ReadRegisters", Addr: 1, Qty: 3, RT: 1}, &Op{Name: "ReadRegisters", Addr: 2, Qty: 1})
 				for _, op := range ops {
 					var good []byte
 					_, ref, _ := s.exchange(op, "timeout", true, func(w wireReq) [][]byte {
@@ -229,6 +234,31 @@ func init() {
 							}
 							if k < len(good) && ending == "timeout" && !isRTUKind(kind) && field(impl, "r") != "err:ErrRequestTimedOut" {
 								res.Add(Finding{Kind: "property", Check: "stall-not-timeout", Line: line, Impl: impl, Expect: "err:ErrRequestTimedOut"})
+							}
+						}
+					}
+					// replies whose last CRC byte is 0x00 (the value a zero-filled receive buffer holds
+					// where the missing byte would go), cut one byte short
+					if isRTUKind(kind) && op.Name == "ReadRegisters" && op.Qty == 1 {
+						found := 0
+						for v := 0; v < 65536 && found < 3; v++ {
+							v := v
+							probe := rtuFrame(1, 3+byte(op.RT), []byte{2, byte(v >> 8), byte(v)})
+							if probe[len(probe)-1] != 0 {
+								continue
+							}
+							found++
+							for _, ending := range []string{"eof", "reset", "timeout"} {
+								line, impl, _ := s.exchange(op, ending, true, func(w wireReq) [][]byte {
+									full := rtuFrame(w.unit, w.fc, []byte{2, byte(v >> 8), byte(v)})
+									return [][]byte{full[:len(full)-1]}
+								})
+								local = append(local, [2]string{line, impl})
+								res.Eval("client/"+kind+"/crc-zero-tail/"+ending, true, line+" => "+impl)
+								if isOK(impl) {
+									res.Add(Finding{Kind: "property", Check: "cut-accepted", Line: line, Impl: impl, Expect: "an error",
+										Note: "reply cut one byte short of a CRC ending in 0x00 was reported as success"})
+								}
 							}
 						}
 					}
@@ -292,6 +322,10 @@ func init() {
 									res.Add(Finding{Kind: "property", Check: "server-cut-after-request", Line: line, Impl: evw, Expect: fmt.Sprintf("%d handler call(s), no panic", want),
 										Note: "connection cut after the request was fully received: the handler must run exactly once even though the response cannot be written"})
 								}
+							}
+							if strings.Contains(ev, "spin") {
+								res.Add(Finding{Kind: "property", Check: "server-cut-session-ends", Line: line, Impl: ev, Expect: "the session ends (connection closed, slot released)",
+									Note: fmt.Sprintf("request cut after %d of %d bytes (%s): the session goroutine keeps spinning on the dead connection", k, len(frame), ending)})
 							}
 							if calls != want || strings.Contains(ev, "panic") {
 								res.Add(Finding{Kind: "property", Check: "server-cut", Line: line, Impl: ev, Expect: fmt.Sprintf("%d handler call(s), no panic", want),
